@@ -1,0 +1,65 @@
+//go:build verif
+
+package memo
+
+// Contracts for GoVC (see /verif/DESIGN.md). Comment-only: compiles to nothing.
+//
+// The variables captured by the returned closure form a lock-free single-assignment cell, like
+// promise.Promise: started is a shared atomic flag whose Swap(true) elects the single caller of fn; done
+// is never reassigned and its close publishes result/doneErr, which are written only by the elected
+// caller before the close and read by the others only after it. Ghost maps, keyed by the done channel:
+//   mstarted(d), mres(d), merrc(d)  the flag and the two variables that belong to d (set once)
+//   mof(x)                          the done channel that flag / variable x belongs to (MZ0: nothing is shared between memos)
+//   mwin(d)                         the invocation holding the write token (owned)
+//   mcalls(d)                       how often fn has been called through this memo
+//   mretv(d), mrete(d)              what that call returned
+// MZ1 done closed ==> flag set, no token holder, fn was called exactly once
+// MZ2 done closed ==> the variables hold what that call returned
+// MZ3 token held  ==> flag set, done open, fn called at most once so far
+// MZ4 fn is called at most once; while nobody is elected it has not been called and the flag is clear
+// MT1 the flag is monotone; MT2 once done is closed the variables and the recorded results never change
+//
+//@ ghostmap mwin: ref -> ref owned
+//@ ghostmap mstarted: ref -> ref once
+//@ ghostmap mres: ref -> ref once
+//@ ghostmap merrc: ref -> ref once
+//@ ghostmap mof: ref -> ref once
+//@ ghostmap mcalls: ref -> int by mwin
+//@ ghostmap mretv: ref -> any by mwin
+//@ ghostmap mrete: ref -> ref by mwin
+//
+//@ ginv MZ0: forall d: ref {mstarted(d)} :: mstarted(d) != nil ==> mof(mstarted(d)) == d && mof(mres(d)) == d && mof(merrc(d)) == d
+//@ ginv MZ1: forall d: ref {mstarted(d)} :: mstarted(d) != nil && closed(d) ==> abool(mstarted(d)) && mwin(d) == nil && mcalls(d) == 1
+//@ ginv MZ2: forall d: ref {mstarted(d)} :: mstarted(d) != nil && closed(d) ==> cellany(mres(d)) == mretv(d) && cellval(merrc(d)) == mrete(d)
+//@ ginv MZ3: forall d: ref {mwin(d)} :: mwin(d) != nil ==> mstarted(d) != nil && abool(mstarted(d)) && !closed(d) && mres(d) != nil && merrc(d) != nil
+//@ ginv MZ4: forall d: ref {mstarted(d)} :: mstarted(d) != nil ==> 0 <= mcalls(d) && mcalls(d) <= 1 && (mwin(d) == nil && !closed(d) ==> mcalls(d) == 0 && !abool(mstarted(d)))
+//@ gtrans MT1: forall d: ref {mstarted(d)} :: old(mstarted(d)) != nil && old(abool(mstarted(d))) ==> abool(mstarted(d))
+//@ gtrans MT2: forall d: ref {mstarted(d)} :: old(mstarted(d)) != nil && old(closed(d)) ==> cellany(mres(d)) == old(cellany(mres(d))) && cellval(merrc(d)) == old(cellval(merrc(d))) && mretv(d) == old(mretv(d)) && mrete(d) == old(mrete(d)) && mcalls(d) == old(mcalls(d))
+//
+//@ func MemoizeFunc
+//@   props C16
+//@   opt frame = skip
+//@   ghost init doneErr: mstarted(done) := started
+//@   ghost init doneErr: mres(done) := cell(result)
+//@   ghost init doneErr: merrc(done) := cell(doneErr)
+//@   ghost init doneErr: mof(started) := done
+//@   ghost init doneErr: mof(cell(result)) := done
+//@   ghost init doneErr: mof(cell(doneErr)) := done
+//@   ensures result != nil
+//
+// The returned closure. Every caller gets the results of the single call of fn.
+//
+//@ func MemoizeFunc$1
+//@   props C16 C13
+//@   opt frame = skip
+//@   published result, doneErr by done token mwin
+//@   captured done != nil && started != nil && mstarted(done) == started && mres(done) == cell(result) && merrc(done) == cell(doneErr)
+//@   requires fn != nil
+//@   ghost atomic 1: mwin(done) := ite(ret, mwin(done), me)
+//@   assert callback 1: mwin(done) == me && mcalls(done) == 0
+//@   ghost callbackret 1: mcalls(done) := mcalls(done) + 1
+//@   ghost callbackret 1: mretv(done) := ret0
+//@   ghost callbackret 1: mrete(done) := ret1
+//@   ghost close 1: mwin(done) := nil
+//@   ensures once: closed(done) && mcalls(done) == 1
+//@   ensures same: result0 == mretv(done) && result1 == mrete(done)
